@@ -334,7 +334,7 @@ package stree
 //@   requires root != nil && root.right != nil && treeOK(root, cmp)
 //@   ensures [C01,C04] goat: result != nil && old(result in root.right.desc) && result != root && result.left == nil && result.right == nil && result.X == old(result.X) && result.X == old(root.right.rep[rank(cmp, result.X)])
 //@   ensures [C01,C04] least: old(rank(cmp, result.X) in root.right.keys) && forall k int :: {old(k in root.right.keys)} old(k in root.right.keys) ==> rank(cmp, result.X) <= k
-//@   ensures [C01,C04] [assumed] shape: treeOK(root.right, cmp)
+//@   ensures [C01,C04] shape: treeOK(root.right, cmp)
 //@   ensures [C01,C04] keys: forall k int :: {inK(root.right, k)} inK(root.right, k) <==> old(k in root.right.keys) && k != rank(cmp, result.X)
 //@   ensures [C01,C04] desc: forall y ref :: {inD(root.right, y)} inD(root.right, y) <==> old(y in root.right.desc) && y != result
 //@   ensures [C01,C04] reps: forall k int :: {root.right.rep[k]} inK(root.right, k) ==> root.right.rep[k] == old(root.right.rep[k])
@@ -345,8 +345,10 @@ package stree
 //@   at entry: ghost K0 = root.right.keys
 //@   loop 1: invariant [C01,C04] spine: goat != nil && goat in D0 && (par == root ==> goat == root.right) && (par != root ==> par in D0 && par.left == goat && par != goat)
 //@   loop 1: invariant [C01,C04] least: forall k int :: {k in K0} k in K0 ==> k in goat.keys || k > rank(cmp, goat.X)
+//@   loop 1: invariant [C01,C04] sealed: forall y *node[T] :: {y in D0} (y in D0 || y == root) && !(y in goat.desc) && y != par ==> !inD(goat, y.left) && !inD(goat, y.right)
 //@   loop 1: decreases cntOf(goat)
 //@   at loop 1 exit: ghost gk = rank(cmp, goat.X)
+//@   at loop 1 exit: assert [C01,C04] forall y *node[T] :: {y in D0} (y in D0 || y == root) && (y.left == goat || y.right == goat) ==> y == par
 //@   at loop 1 exit: assert [C01,C04] forall k int :: {k in K0} k in K0 ==> k >= gk
 //@   at loop 1 exit: assert [C01,C04] forall y *node[T] :: {y in D0} y in D0 && goat in y.desc && y != goat ==> gk in y.keys && gk < rank(cmp, y.X)
 //@   at loop 1 exit: assert [C01,C04] forall y *node[T] :: {y in D0} y in D0 && goat in y.desc && y != goat ==> y.left != nil && goat in y.left.desc && !(inK(y.right, gk)) && !(inD(y.right, goat))
